@@ -189,6 +189,11 @@ class Context:
                 (64, True): ">q",
             }
         fmt = mapping[(bits, signed)]
+        if isinstance(v, int):
+            # A value outside the range of the type wraps around:
+            v &= (1 << bits) - 1
+            if signed and v >> (bits - 1):
+                v -= 1 << bits
         return struct.pack(fmt, v)
 
     def pack_float(self, v, bits=None):
